@@ -194,7 +194,9 @@ func handle(st *state, f []string) string {
 			}
 			st.cond.Wait()
 		}
-	case "send":
+	case "send", "sendclose":
+		// sendclose: the message goes out and the association is shut down in the same breath (under the lock, the two system calls back
+		// to back): the peer can still read the message, and whatever it writes next meets a closed association
 		j, _ := strconv.Atoi(f[1])
 		st.mu.Lock()
 		defer st.mu.Unlock()
@@ -221,7 +223,14 @@ func handle(st *state, f []string) string {
 			return `{"kind":"ok","closed":true}`
 		}
 		err = syscall.Sendmsg(st.fd, out, nil, nil, 0)
+		if f[0] == "sendclose" {
+			st.closed = true
+			syscall.Shutdown(st.fd, syscall.SHUT_RDWR)
+		}
 		st.logf(`{"dir":"dl","j":%d,"t":%.3f,"bytes":%s,"err":%t}`, j, time.Since(st.t0).Seconds(), jsonInts(out), err != nil)
+		if f[0] == "sendclose" {
+			st.logf(`{"dir":"close","j":%d,"t":%.3f,"after":true}`, j, time.Since(st.t0).Seconds())
+		}
 		return `{"kind":"ok"}`
 	case "close":
 		j, _ := strconv.Atoi(f[1])
